@@ -175,8 +175,9 @@ class Interp:
         lt, lp = l
         rt, rp = r
         if op == "+" and (lt == "string" or rt == "string"):
-            if lt in ("float", "boolean", "char") or rt in ("float", "boolean", "char"):
-                raise Unspecified("float/boolean/char in concatenation (the guide only shows numbers and strings)")
+            if lt in ("float", "char") or rt in ("float", "char"):
+                raise Unspecified("float/char in concatenation (the guide fixes the text of neither)")
+            # booleans print as true/false (language guide, echo) and '+' with a string concatenates whatever echo can print
             return ("string", fmt(l) + fmt(r))
         if op in ("+", "-", "*"):
             if lt not in NUM or rt not in NUM:
